@@ -37,9 +37,13 @@ def main():
     results = []
     for m in sel:
         t0 = time.time()
-        edits = m.get("edits") or [(m["file"], m["find"], m["replace"])]
+        edits = m.get("edits") or ([(m["file"], m["find"], m["replace"])] if "file" in m else [])
         saved = {}
         try:
+            if m.get("patch"):
+                r = sh("git", "-C", WT, "apply", os.path.join(VERIF, m["patch"]))
+                if r.returncode:
+                    raise RuntimeError("patch does not apply: " + r.stderr.strip()[:200])
             for f, find, rep in edits:
                 p = os.path.join(WT, f)
                 src = open(p).read()
@@ -68,6 +72,8 @@ def main():
         finally:
             for p, src in saved.items():
                 open(p, "w").write(src)
+            if m.get("patch"):
+                sh("git", "-C", WT, "apply", "-R", os.path.join(VERIF, m["patch"]))
         print(f"{status:7} {m['name']:50} {','.join(m['props'])} {time.time()-t0:.0f}s", flush=True)
         if status not in ("CAUGHT", "SILENT"):
             print("   " + "\n   ".join("\n".join(outs).strip().splitlines()[-12:]))
